@@ -27,11 +27,20 @@ func normCuts(cuts []int, total int) []int {
 }
 
 type generator struct {
-	r    *mon.Run
-	emit func(*Scenario)
+	r      *mon.Run
+	emit   func(*Scenario)
 	idx    int
 	seed   uint64
 	maxOps int
+}
+
+// limit: most writes/reads a scripted peer may need in one scenario. A system
+// call per octet on a real socket costs far more than a net.Pipe hand-over.
+func (g *generator) limit(peer string) int {
+	if peer != "pipe" {
+		return g.maxOps / 8
+	}
+	return g.maxOps
 }
 
 func (g *generator) add(sc Scenario) {
@@ -40,7 +49,7 @@ func (g *generator) add(sc Scenario) {
 	// tier, except the byte-wise delivery of the three lengths around 64 KiB.
 	if sc.Chunk > 0 && sc.Class != "byte-wise/64k" {
 		total, _ := streamLen(sc.Lens)
-		if total/sc.Chunk > g.maxOps {
+		if total/sc.Chunk > g.limit(sc.Peer) {
 			return
 		}
 	}
@@ -328,7 +337,7 @@ func generate(r *mon.Run, emit func(*Scenario)) int {
 	drawSeq := func(maxFrames int) []int {
 		k := 1 + rng.IntN(maxFrames)
 		lens := make([]int, k)
-		budget := 600000
+		budget := r.Pick(150000, 600000) // octets per random sequence
 		for i := range lens {
 			lens[i] = drawLen()
 			if lens[i] > budget {
@@ -394,10 +403,11 @@ func generate(r *mon.Run, emit func(*Scenario)) int {
 			}
 			cuts = normCuts(cuts, total)
 		}
-		if chunk > 0 && total/chunk > g.maxOps/4 {
+		peer := drawPeer()
+		if chunk > 0 && total/chunk > g.limit(peer)/4 {
 			chunk = 1460
 		}
-		sc := Scenario{Kind: "recv", Peer: drawPeer(), Class: "random/recv", Lens: lens, Fill: drawFill(), Chunk: chunk, Segs: cuts, Gap: gaps[rng.IntN(3)], Cut: -1}
+		sc := Scenario{Kind: "recv", Peer: peer, Class: "random/recv", Lens: lens, Fill: drawFill(), Chunk: chunk, Segs: cuts, Gap: gaps[rng.IntN(3)], Cut: -1}
 		if rng.IntN(3) == 0 {
 			sc.Class = "random/recv-cut"
 			sc.Cut = rng.IntN(total)
@@ -432,7 +442,7 @@ func generate(r *mon.Run, emit func(*Scenario)) int {
 			if total <= 3000 && rng.IntN(3) == 0 {
 				sc.Chunk = 1
 			}
-			if total/sc.Chunk > g.maxOps/4 {
+			if total/sc.Chunk > g.limit(sc.Peer)/4 {
 				sc.Chunk = 1460
 			}
 		default:
